@@ -535,7 +535,7 @@ pub fn run(ctx: &Ctx, rep: &mut Report) {
         cases,
         |ctx, p: &Plan, acc| check_plan(ctx, p, acc, true),
     );
-    let n = ctx.cases(40_000, 600_000);
+    let n = ctx.cases(40_000, 5_000_000);
     run_prop(
         ctx,
         rep,
